@@ -513,6 +513,363 @@ func (w *world) buildLong(t *tr.W) {
 	w.judge()
 }
 
+// ------------------------------------------------ near-tie reorganisations
+//
+// A chain on which the blocks do NOT all carry the same work (a retarget that really changes the
+// bits; the 20-minute minimum-difficulty rule), and, for several fork points below its tip,
+// competing branches whose total work is placed on purpose right next to the work W of the suffix
+// they would displace: the heaviest branch found below W, one of exactly W, the lightest one found
+// above W.  Whoever sums the displaced work over anything else than the heights fork+1 .. tip - one
+// block too many, one too few, a window shifted by one - gets a number that differs from W by at
+// least the difference of two neighbouring blocks' work, and decides one of these offers wrongly.
+
+// pnode is a PLANNED header: height, bits and timestamp are all the difficulty rules look at, so a
+// branch can be weighed before a single hash is computed.  Only the branches picked are mined.
+type pnode struct {
+	parent blockchain.HeaderCtx
+	height int32
+	bits   uint32
+	ts     int64
+}
+
+func (p *pnode) Height() int32                { return p.height }
+func (p *pnode) Bits() uint32                 { return p.bits }
+func (p *pnode) Timestamp() int64             { return p.ts }
+func (p *pnode) Parent() blockchain.HeaderCtx { return p.parent }
+func (p *pnode) RelativeAncestorCtx(d int32) blockchain.HeaderCtx {
+	var c blockchain.HeaderCtx = p
+	for i := int32(0); i < d; i++ {
+		if c = c.Parent(); c == nil {
+			return nil
+		}
+	}
+	return c
+}
+
+func work64(bits uint32) int64 {
+	w := blockchain.CalcWork(bits)
+	if !w.IsInt64() {
+		panic("generator: work does not fit 63 bits")
+	}
+	return w.Int64()
+}
+
+// ntCand: one competing branch of a near-tie round.
+type ntCand struct {
+	fp    *node   // fork point (stored; the branch's first header names it)
+	kind  string  // below tie above
+	ts    []int64 // the plan
+	total int64   // work of the whole branch
+	disp  int64   // W: work of the suffix it would displace
+	nodes []*node // the mined branch
+}
+
+// ntRound: the offers made against one stored chain; `adopt` (if any) is sent last and becomes
+// the stored chain of the next round.
+type ntRound struct {
+	chain []*node
+	offer []*ntCand
+	adopt *ntCand
+	split int // > 0: `adopt` is revealed in two messages, the first being its first `split` headers
+}
+
+// ntPickTs chooses the timestamp of the next planned header.  need = what the branch still lacks
+// to reach the displaced work.
+func (w *world) ntPickTs(cur blockchain.HeaderCtx, need int64) int64 {
+	rng := w.rng
+	base := cur.Timestamp()
+	per := w.cc.per
+	var ts int64
+	switch r := rng.Intn(12); {
+	case r < 3:
+		ts = base + 600
+	case r < 5:
+		ts = base + 20 + int64(rng.Intn(100))
+	case r < 6:
+		ts = base + 700 + int64(rng.Intn(480))
+	case r < 10 && w.params.ReduceMinDifficulty:
+		ts = base + 1201 + int64(rng.Intn(700)) // a minimum-difficulty block
+	default:
+		ts = base + 200 + int64(rng.Intn(400))
+	}
+	// the header being planned is the last one of its retarget interval: its timestamp decides the
+	// bits of the next interval.  Aim them so that k such blocks bring the branch next to W.
+	if !w.params.PoWNoRetargeting && (cur.Height()+2)%per == 0 && rng.Intn(3) > 0 {
+		if first := cur.RelativeAncestorCtx(per - 2); first != nil {
+			own := w.requiredBitsCtx(cur, time.Unix(base+1, 0))
+			k := int64(1 + rng.Intn(3))
+			want := (need - work64(own) + int64(rng.Intn(4)-1)) / k
+			if want >= 2 {
+				// target' = 2^256/want - 1;  actual = target' * timespan / target(own)
+				tgt := new(big.Int).Lsh(big.NewInt(1), 256)
+				tgt.Div(tgt, big.NewInt(want))
+				tgt.Sub(tgt, big.NewInt(1))
+				a := new(big.Int).Mul(tgt, big.NewInt(int64(w.params.TargetTimespan/time.Second)))
+				a.Div(a, blockchain.CompactToBig(own))
+				if a.IsInt64() {
+					actual := a.Int64() + int64(rng.Intn(2))
+					if actual >= w.cc.min && actual <= w.cc.max {
+						ts = first.Timestamp() + actual
+					}
+				}
+			}
+		}
+	}
+	if m := blockchain.CalcPastMedianTime(cur).Unix(); ts <= m {
+		ts = m + 1
+	}
+	return ts
+}
+
+// ntSearch plans branches off fp by random walks and keeps, of every prefix of every walk, the
+// heaviest one below W, one of exactly W and the lightest one above W.
+func (w *world) ntSearch(fp *node, W int64, maxLen int) (below, tie, above *ntCand) {
+	keep := func(kind string, tss []int64, total int64) *ntCand {
+		return &ntCand{fp: fp, kind: kind, ts: append([]int64{}, tss...), total: total, disp: W}
+	}
+	for walk := 0; walk < 160; walk++ {
+		var cur blockchain.HeaderCtx = hctx{fp}
+		cum := int64(0)
+		var tss []int64
+		for d := 0; d < maxLen && cum <= W; d++ {
+			ts := w.ntPickTs(cur, W-cum)
+			bits := w.requiredBitsCtx(cur, time.Unix(ts, 0))
+			cum += work64(bits)
+			tss = append(tss, ts)
+			cur = &pnode{parent: cur, height: cur.Height() + 1, bits: bits, ts: ts}
+			switch {
+			case cum < W && (below == nil || cum > below.total || cum == below.total && w.rng.Intn(3) == 0):
+				below = keep("below", tss, cum)
+			case cum == W && (tie == nil || w.rng.Intn(3) == 0):
+				tie = keep("tie", tss, cum)
+			case cum > W && (above == nil || cum < above.total || cum == above.total && w.rng.Intn(3) == 0):
+				above = keep("above", tss, cum)
+			}
+		}
+	}
+	return
+}
+
+func (w *world) ntMine(c *ntCand) {
+	cur := c.fp
+	sum := int64(0)
+	for _, ts := range c.ts {
+		cur = w.mine(cur, ts, "ok")
+		c.nodes = append(c.nodes, cur)
+		sum += cur.work.Int64()
+	}
+	if sum != c.total {
+		panic(fmt.Sprintf("generator: planned work %d, mined work %d", c.total, sum))
+	}
+}
+
+// buildNearTie: the main chain with its difficulty on the move, then `rounds` rounds of offers.
+func (w *world) buildNearTie(t *tr.W) []*ntRound {
+	rng := w.rng
+	per := int(w.cc.per)
+	minDiff := w.params.ReduceMinDifficulty
+	// the tip usually lies 0..2 blocks past a retarget height
+	L := per*(1+rng.Intn(2)) + rng.Intn(3)
+	if per == 4 {
+		L += 4
+	}
+	if rng.Intn(3) == 0 {
+		L = 2*per + 1 + rng.Intn(per)
+	}
+	cur := w.nodes[0]
+	w.main = []*node{cur}
+	tempo := rng.Intn(2) // the first interval is fast: the difficulty leaves the limit
+	for h := 1; h <= L; h++ {
+		if h%per == 0 {
+			tempo = []int{0, 1, 2, 2, 2, 3}[rng.Intn(6)] // later on it falls as often as it rises
+		}
+		var sp int64
+		switch tempo {
+		case 0:
+			sp = int64(20 + rng.Intn(100)) // four times harder
+		case 1:
+			sp = int64(200 + rng.Intn(330)) // harder by some odd factor
+		case 2:
+			sp = int64(700 + rng.Intn(490)) // easier
+		default:
+			sp = 600
+		}
+		if minDiff && h%per != 0 && (rng.Intn(4) == 0 || h == L && rng.Intn(2) == 0) {
+			sp = int64(1201 + rng.Intn(900)) // a minimum-difficulty block between normal ones
+		}
+		cur = w.mine(cur, cur.hdr.Timestamp.Unix()+sp, "ok")
+		w.main = append(w.main, cur)
+	}
+	if rng.Intn(3) == 0 { // a checkpoint well below every fork point
+		h := 1 + rng.Intn(max(1, L-7))
+		w.params.Checkpoints = []chaincfg.Checkpoint{{Height: int32(h), Hash: &w.main[h].hash}}
+	}
+	t.Hit(fmt.Sprintf("checkpoints.%d", len(w.params.Checkpoints)))
+	floor := 0
+	for _, c := range w.params.Checkpoints {
+		floor = int(c.Height)
+	}
+
+	var rounds []*ntRound
+	chain := w.main
+	for r, nr := 0, 3+rng.Intn(2); r < nr; r++ {
+		rd := &ntRound{chain: chain}
+		rounds = append(rounds, rd)
+		tipH := len(chain) - 1
+		tipW := chain[tipH].work.Int64()
+		// fork points: up to 6 below the tip; those whose block differs in work from the tip first
+		var diff, same []int
+		for f := tipH - 1; f >= max(floor, tipH-6, 0); f-- {
+			if chain[f].work.Int64() != tipW {
+				diff = append(diff, f)
+			} else {
+				same = append(same, f)
+			}
+		}
+		rng.Shuffle(len(diff), func(i, j int) { diff[i], diff[j] = diff[j], diff[i] })
+		rng.Shuffle(len(same), func(i, j int) { same[i], same[j] = same[j], same[i] })
+		fps := append(diff[:min(len(diff), 5)], same[:min(len(same), 1)]...)
+		var aboves []*ntCand
+		for i, f := range fps {
+			W := int64(0)
+			for _, n := range chain[f+1:] {
+				W += n.work.Int64()
+			}
+			below, tie, above := w.ntSearch(chain[f], W, min(tipH-f+3, 8))
+			// the not-heavier offers of two fork points whose block differs from the tip, and of one
+			// whose block does not; the heavier offer is looked for at every one of them
+			if i < 2 || i == len(fps)-1 {
+				for _, c := range []*ntCand{below, tie} {
+					if c != nil {
+						rd.offer = append(rd.offer, c)
+					}
+				}
+			}
+			if above != nil {
+				aboves = append(aboves, above)
+			}
+		}
+		if len(aboves) > 0 {
+			// the branch to be adopted: the one closest to what it displaces, relative to the
+			// difference between its fork block and the tip
+			sort.SliceStable(aboves, func(i, j int) bool {
+				return w.ntSlack(chain, aboves[i]) < w.ntSlack(chain, aboves[j])
+			})
+			rd.adopt = aboves[0]
+			if rng.Intn(4) == 0 {
+				rd.adopt = aboves[rng.Intn(len(aboves))]
+			}
+			if n := len(rd.adopt.ts); n > 1 && rng.Intn(2) == 0 {
+				rd.split = 1 + rng.Intn(n-1)
+			}
+		}
+		rng.Shuffle(len(rd.offer), func(i, j int) { rd.offer[i], rd.offer[j] = rd.offer[j], rd.offer[i] })
+		for _, c := range rd.offer {
+			w.ntMine(c)
+		}
+		if rd.adopt == nil {
+			break
+		}
+		w.ntMine(rd.adopt)
+		chain = append(append([]*node{}, chain[:rd.adopt.fp.height+1]...), rd.adopt.nodes...)
+	}
+	var maxTs int64
+	for _, n := range w.nodes {
+		maxTs = max(maxTs, n.hdr.Timestamp.Unix())
+	}
+	w.ts.now = time.Unix(maxTs+3600, 0)
+	t.Hit("time.all-fresh")
+	w.judge()
+	for _, rd := range rounds {
+		for _, c := range append(append([]*ntCand{}, rd.offer...), rd.adopt) {
+			if c != nil {
+				w.ntCount(t, rd.chain, c)
+			}
+		}
+	}
+	return rounds
+}
+
+// ntSlack: how far above W the branch lies, in units that put the decisive ones first (0 = lies
+// between W and the sum over the window shifted down by one block, the fork block being heavier
+// than the tip).
+func (w *world) ntSlack(chain []*node, c *ntCand) int64 {
+	d := chain[c.fp.height].work.Int64() - chain[len(chain)-1].work.Int64()
+	if d > 0 && c.total-c.disp <= d {
+		return 0
+	}
+	return c.total - c.disp
+}
+
+// ntCount records what kind of near tie an offer is (input distribution for the evidence).
+func (w *world) ntCount(t *tr.W, chain []*node, c *ntCand) {
+	f := int(c.fp.height)
+	tipH := len(chain) - 1
+	wf, wt := chain[f].work.Int64(), chain[tipH].work.Int64()
+	delta := c.total - c.disp
+	if delta < 0 {
+		delta = -delta
+	}
+	t.Hit("neartie.offer." + c.kind)
+	switch {
+	case wf > wt:
+		t.Hit("neartie.fork-block-heavier-than-tip")
+	case wf < wt:
+		t.Hit("neartie.tip-heavier-than-fork-block")
+	default:
+		t.Hit("neartie.fork-block-same-work-as-tip")
+	}
+	if d := max(wf-wt, wt-wf); delta < d {
+		t.Hit("neartie.offer." + c.kind + ".closer-than-fork-tip-difference")
+	}
+	light := wf
+	for _, n := range chain[f+1:] {
+		light = min(light, n.work.Int64())
+	}
+	for _, n := range c.nodes {
+		light = min(light, n.work.Int64())
+	}
+	if delta < light {
+		t.Hit("neartie.offer." + c.kind + ".closer-than-lightest-block")
+	}
+	if len(c.nodes) != tipH-f {
+		t.Hit("neartie.offer.length-differs-from-displaced")
+	}
+	// the offer lies between the displaced work and the sum over the window shifted by one block
+	// (heights fork .. tip-1): the two sums decide it differently
+	shifted := c.disp + wf - wt
+	switch {
+	case c.total > c.disp && c.total <= shifted:
+		t.Hit("neartie.between-sums.heavier-than-displaced")
+	case c.total <= c.disp && c.total > shifted:
+		t.Hit("neartie.between-sums.not-heavier-than-displaced")
+	}
+	// what makes the work vary over fork block, displaced suffix and branch
+	lim := w.params.PowLimitBits
+	md, rt := false, false
+	seg := append(append([]*node{}, chain[f:]...), c.nodes...)
+	for _, n := range seg {
+		if n.parent == nil {
+			continue
+		}
+		if n.height%w.cc.per == 0 && n.hdr.Bits != n.parent.hdr.Bits {
+			rt = true
+		}
+		if n.height%w.cc.per != 0 && n.hdr.Bits == lim && w.params.ReduceMinDifficulty &&
+			n.hdr.Timestamp.Unix() > n.parent.hdr.Timestamp.Unix()+1200 {
+			for _, o := range seg {
+				md = md || o.hdr.Bits != lim
+			}
+		}
+	}
+	if rt {
+		t.Hit("neartie.varies-by.retarget")
+	}
+	if md {
+		t.Hit("neartie.varies-by.min-difficulty-rule")
+	}
+}
+
 func allOk(n *node) bool {
 	for ; n != nil; n = n.parent {
 		if n.kind != "ok" {
@@ -1044,10 +1401,17 @@ func runCase(t *tr.W, rng *rand.Rand, nev int, script string) {
 	if script == "long" {
 		ps = len(paramSets) - 1
 	}
+	if script == "neartie" {
+		ps = []int{1, 2, 2, 3, 5, 5}[rng.Intn(6)] // a retarget every 4 or 8 blocks, with and without the min-difficulty rule
+	}
 	w := newWorld(rng, ps)
-	if script == "long" {
+	var nearTie []*ntRound
+	switch script {
+	case "long":
 		w.buildLong(t)
-	} else {
+	case "neartie":
+		nearTie = w.buildNearTie(t)
+	default:
 		w.build(t)
 	}
 	t.Hit(fmt.Sprintf("params.%d", ps))
@@ -1263,6 +1627,67 @@ func runCase(t *tr.W, rng *rand.Rand, nev int, script string) {
 		cfwrite()
 		backlog()
 		headers(2, w.long[len(w.long)-3:], "known")
+		return
+	}
+	if script == "neartie" {
+		// the sync peer gives us the main chain; then, round by round, branches that are just not
+		// heavier than what they would displace (nothing may change) and one that just is (it must be
+		// adopted in full) - in one message, or in two with the first part alone not heavier
+		t.Hit("script.near-tie")
+		if rng.Intn(2) == 0 {
+			peerheight(1, len(w.main)-1)
+		}
+		newpeer(1)
+		k := len(w.main) - 1
+		if rng.Intn(2) == 0 {
+			k = 1 + rng.Intn(len(w.main)-1)
+		}
+		headers(1, w.main[1:1+k], "main")
+		headers(1, w.main[1+k:], "main")
+		newpeer(2)
+		if rng.Intn(2) == 0 {
+			cfwrite()
+			cfwrite()
+		}
+		sender := func() int {
+			if sp := s.peerID(s.bm.Digest().SyncPeer); sp != 0 && rng.Intn(3) > 0 {
+				return sp
+			}
+			return 1 + rng.Intn(npeers)
+		}
+		msg := func(c *ntCand, n int) []*node {
+			b := append([]*node{}, c.nodes[:n]...)
+			if rng.Intn(5) == 0 { // with a known prefix, as after a block locator that matched lower
+				for fp, i := c.fp, 1+rng.Intn(2); i > 0 && fp.height >= 1; i, fp = i-1, fp.parent {
+					b = append([]*node{fp}, b...)
+				}
+			}
+			return b
+		}
+		for _, rd := range nearTie {
+			for _, c := range rd.offer {
+				if s.stuck {
+					return
+				}
+				headers(sender(), msg(c, len(c.nodes)), "neartie-"+c.kind)
+				switch rng.Intn(6) {
+				case 0:
+					cfwrite()
+				case 1:
+					backlog()
+				}
+			}
+			if c := rd.adopt; c != nil && !s.stuck {
+				p := sender()
+				if rd.split > 0 {
+					t.Hit("neartie.reveal.two-messages")
+					headers(p, msg(c, rd.split), "neartie-above-first-part")
+				} else {
+					t.Hit("neartie.reveal.one-message")
+				}
+				headers(p, msg(c, len(c.nodes)), "neartie-above")
+			}
+		}
 		return
 	}
 	// a sync peer is usually there from the start
@@ -1810,10 +2235,14 @@ func Run(t *tr.W, thorough bool) {
 	if os.Getenv("VERIF_SEARCH") == "1" {
 		ncases = 3 * 120 // the search after a broken tie: three times the quick run
 	}
+	rngNT := tr.Rng(7102) // the near-tie cases draw from a stream of their own
 	for i := 0; i < ncases; i++ {
 		runCase(t, rng, 18+rng.Intn(30), "")
 		if i == ncases/3 || i == 2*ncases/3 {
 			runCase(t, rng, 0, "long") // a few long-branch cases per run
+		}
+		if i%10 == 5 {
+			runCase(t, rngNT, 0, "neartie") // a dozen near-tie cases per quick run
 		}
 	}
 }
